@@ -225,4 +225,32 @@ def reportProblems (k : Nat) (tv : String → Vec) (t : T) (exact checkInner tip
     else []
   p1 ++ p2 ++ perNode ++ p4
 
+/-- the same for a run WITH random resolution: steps minimal, tips as given, every state reported at an
+    inner node occurs in some most parsimonious labelling; no joint claim (the draws of different nodes are
+    independent).  (empty = fine)
+    `exact` : the sets of inner nodes must be exactly the optimal sets (plain down-pass);
+    `tipsExact` : the tips must be reported with exactly their input sets (otherwise a
+    non-empty subset is accepted: ACCTRAN on an ambiguous tip). -/
+def reportProblemsR (k : Nat) (tv : String → Vec) (t : T) (exact checkInner tipsExact : Bool) (r : Report) : List String :=
+  let mc := minCost k tv t
+  let opt := (totA k tv (vzero k) t).flat
+  let leaf := leafFlags t
+  let n := leaf.length
+  let p1 := if r.steps != mc then ["steps " ++ toString r.steps ++ " but the minimum is " ++ toString mc] else []
+  let p2 := if r.sets.length != n then ["number of nodes"] else []
+  let perNode := (List.range n).filterMap fun i =>
+    let rep := sortNat (r.sets.getD i [])
+    let o := opt.getD i []
+    if leaf.getD i false then
+      let tipset := members k o
+      if tipsExact then (if rep != tipset then some ("tip " ++ toString i ++ " altered") else none)
+      else (if rep.isEmpty || !subset rep tipset then some ("tip " ++ toString i ++ " altered") else none)
+    else if !checkInner then none
+    else
+      let os := (List.range k).filter fun s => o.at s == mc
+      if exact then (if rep != os then some ("node " ++ toString i ++ ": reported set is not the set of optimal states") else none)
+      else (if rep.isEmpty || !subset rep os then some ("node " ++ toString i ++ ": a reported state is in no most parsimonious reconstruction") else none)
+  p1 ++ p2 ++ perNode
+
+
 end Gotree.C12
